@@ -467,9 +467,74 @@ class MatchAny(FnSpec):
             ex.oblige(f"no-uncaught[{exc.cls}@{site}]", False, kind="exception")
 
 
+class RegexInit(FnSpec):
+    """RegexMatchingEventHandler.__init__: the compiled lists are the given lists element by element (case folded iff not
+    case_sensitive); None means 'include everything' / 'ignore nothing'; an EMPTY include list stays empty (nothing is
+    dispatched) - it is not the default"""
+    relpath, qualname, prop = EVENTS, "RegexMatchingEventHandler.__init__", PROP
+
+    def __init__(self, W):
+        self.W = W
+        self.world = self
+        self.SrcS = ground.usort("RegexSource")
+        self.Src = TRef("RegexSource", self.SrcS)
+        self.RC = z3.Function("re_compile", self.SrcS, z3.BoolSort(), W.RxS)
+
+    def isinstance(self, ex, v, cls):
+        name = cls.dotted if isinstance(cls, VGlobal) else getattr(cls, "name", None)
+        if name in ("str", "builtins.str"):
+            return isinstance(v, str)      # the symbolic argument is a list (a single string is the documented shortcut, not modelled)
+        raise Unsupported("isinstance")
+
+    def src(self, v):
+        if isinstance(v, str):
+            return z3.Const("regex_lit_" + v.encode().hex(), self.SrcS)
+        return self.Src.unwrap(v)
+
+    def globals(self):
+        W = self.W
+
+        def compile_(ex, a, k, n):
+            ic = len(a) > 1
+            return W.Rx.wrap(self.RC(self.src(a[0]), z3.BoolVal(ic)))
+        return {"re.compile": compile_, "re.IGNORECASE": VOpaque("re.IGNORECASE"), "re.I": VOpaque("re.IGNORECASE"), "super.__init__": lambda ex, recv, a, k, n: None,
+                "FileSystemEventHandler.__init__": lambda ex, recv, a, k, n: None}
+
+    def setup(self, ex):
+        self.me = VObj("RegexMatchingEventHandler")
+        L = TList(self.Src)
+        self.rx = ex.fresh(TOpt(L), "regexes")
+        self.irx = ex.fresh(TOpt(L), "ignore_regexes")
+        ex.assume(z3.And(self.rx.val.n >= 0, self.irx.val.n >= 0))
+        self.cs = ex.fresh_term(z3.BoolSort(), "case_sensitive")
+        self.igd = ex.fresh_term(z3.BoolSort(), "ignore_directories")
+        return {"self": self.me, "regexes": self.rx, "ignore_regexes": self.irx, "ignore_directories": VBool(self.igd), "case_sensitive": VBool(self.cs)}
+
+    def same(self, ex, got, given, default_lits, tag):
+        """got: what the constructor stored; given: TOpt(list of sources)"""
+        ic = z3.Not(self.cs)
+        k = z3.Const("rk", z3.IntSort())
+        if isinstance(got, list):          # a concrete python list of compiled patterns: only legitimate for the default
+            want = [self.RC(self.src(l), ic) for l in default_lits]
+            ok = len(got) == len(want) and all(isinstance(g, VRef) for g in got)
+            ex.oblige(f"post[{tag}: a literal list is stored only when None was given, and it is the documented default]",
+                      z3.And(z3.Not(given.some), z3.BoolVal(ok), *[g.t == w for g, w in zip(got, want)]) if ok else False)
+        elif isinstance(got, VList):
+            ex.oblige(f"post[{tag}: the given list compiled element by element, case folded iff not case_sensitive (an empty list stays empty)]",
+                      z3.And(given.some, got.n == given.val.n, z3.ForAll([k], z3.Implies(z3.And(k >= 0, k < got.n), got.arr[k] == self.RC(given.val.arr[k], ic)))))
+        else:
+            ex.oblige(f"post[{tag}: a list of compiled patterns is stored]", False)
+
+    def post(self, ex, result):
+        H = ex.heap
+        self.same(ex, H.get((self.me.id, "_regexes")), self.rx, [".*"], "regexes")
+        self.same(ex, H.get((self.me.id, "_ignore_regexes")), self.irx, [], "ignore_regexes")
+        ex.oblige("post[flags stored]", z3.And(TBool.unwrap(H.get((self.me.id, "_ignore_directories"))) == self.igd, TBool.unwrap(H.get((self.me.id, "_case_sensitive"))) == self.cs))
+
+
 def make_specs():
     W = World()
-    return [BaseDispatch(W), PatternDispatch(W), RegexDispatch(W), MatchPath(W), FilterPaths(W), MatchAny(W)]
+    return [BaseDispatch(W), PatternDispatch(W), RegexDispatch(W), RegexInit(W), MatchPath(W), FilterPaths(W), MatchAny(W)]
 
 
 def lemmas():
